@@ -465,8 +465,9 @@ pub fn run_shard(ctx: &mut Ctx) {
     }
     let thorough = ctx.tier == Tier::Thorough;
     for dim in 2..=5usize {
-        let n = ctx.share(ctx.tier.pick(2500, 125_000));
-        ctx.run_cases(&format!("lists_d{dim}"), n, list_strategy(dim, if thorough { 200 } else { 60 }), &|c, l| exec(c, l));
+        // the epsilon-dedup oracles are quadratic in the list length (exact rational distances)
+        let n = ctx.share(ctx.tier.pick(2500, 20_000));
+        ctx.run_cases(&format!("lists_d{dim}"), n, list_strategy(dim, if thorough { 120 } else { 60 }), &|c, l| exec(c, l));
     }
     for dim in 1..=5usize {
         let n = ctx.share(ctx.tier.pick(1000, 50_000));
